@@ -303,3 +303,10 @@ func (server *SugarDB) VerifRaftStop() error {
 	server.memberList.MemberListShutdown()
 	return err
 }
+
+// VerifRaftSnapshot produces a raft snapshot of this node's dataset through the state machine's
+// Snapshot/Persist path; VerifRaftRestore installs one through its Restore path.
+func (server *SugarDB) VerifRaftSnapshot(msec int64) ([]byte, error) {
+	return server.raft.VerifSnapshot(msec)
+}
+func (server *SugarDB) VerifRaftRestore(b []byte) error { return server.raft.VerifRestore(b) }
